@@ -2,6 +2,8 @@
 use super::broker::Broker;
 use super::transport::MockStream;
 use super::world::{EnvConfig, Outcome, PointKind, PointRec, World};
+#[allow(unused_imports)]
+use std::io::Write as _;
 use crate::wire::{split_envelopes, PROTOCOL_HEADER};
 use amiquip::verif;
 use crossbeam_channel::{Receiver, RecvError};
@@ -14,6 +16,19 @@ use std::time::{Duration, Instant};
 #[derive(Clone)]
 pub struct Ctx {
     pub world: Arc<World>,
+    /// free-running mode (loopback TCP conformance runs): no controller, real blocking
+    pub free: Option<Arc<FreeWorld>>,
+}
+
+/// State of a free-running execution over a real socket.
+pub struct FreeWorld {
+    pub addr: std::net::SocketAddr,
+    pub logs: std::sync::Mutex<BTreeMap<String, Vec<String>>>,
+    handles: std::sync::Mutex<Vec<Option<std::thread::JoinHandle<()>>>>,
+}
+
+thread_local! {
+    static FREE_NAME: std::cell::RefCell<String> = std::cell::RefCell::new("main".to_string());
 }
 
 impl Ctx {
@@ -21,10 +36,29 @@ impl Ctx {
         MockStream::new(self.world.clone())
     }
 
+    /// Address of the loopback broker in free-running mode.
+    pub fn tcp_addr(&self) -> Option<std::net::SocketAddr> {
+        self.free.as_ref().map(|f| f.addr)
+    }
+
     pub fn spawn<F: FnOnce(Ctx) + Send + 'static>(&self, name: &str, f: F) -> usize {
+        if let Some(free) = &self.free {
+            let ctx = self.clone();
+            let n = name.to_string();
+            let h = std::thread::Builder::new()
+                .name(format!("actor-{}", name))
+                .spawn(move || {
+                    FREE_NAME.with(|x| *x.borrow_mut() = n);
+                    f(ctx)
+                })
+                .expect("spawn");
+            let mut hs = free.handles.lock().unwrap();
+            hs.push(Some(h));
+            return hs.len() - 1;
+        }
         let id = self.world.register_actor(name);
         let w = self.world.clone();
-        let ctx = Ctx { world: self.world.clone() };
+        let ctx = Ctx { world: self.world.clone(), free: None };
         std::thread::Builder::new()
             .name(format!("actor-{}", name))
             .spawn(move || {
@@ -36,12 +70,22 @@ impl Ctx {
     }
 
     pub fn join(&self, id: usize) {
+        if let Some(free) = &self.free {
+            let h = free.handles.lock().unwrap()[id].take();
+            if let Some(h) = h {
+                let _ = h.join();
+            }
+            return;
+        }
         self.world.wait_actor(id);
     }
 
     /// Blocking receive on a crossbeam receiver (consumer queues, listeners) under the
     /// scheduler.
     pub fn recv<T: Send>(&self, what: &str, rx: &Receiver<T>) -> Result<T, RecvError> {
+        if self.free.is_some() {
+            return rx.recv();
+        }
         let ready = || verif::recv_ready(rx);
         self.world.wait_until(what, &ready);
         rx.recv()
@@ -64,10 +108,19 @@ impl Ctx {
     }
 
     pub fn log<S: Into<String>>(&self, s: S) {
+        if let Some(free) = &self.free {
+            let name = FREE_NAME.with(|x| x.borrow().clone());
+            free.logs.lock().unwrap().entry(name).or_default().push(s.into());
+            return;
+        }
         self.world.log(s.into());
     }
 
     pub fn sleep_ms(&self, ms: u64) {
+        if self.free.is_some() {
+            std::thread::sleep(Duration::from_millis(ms));
+            return;
+        }
         let t = verif::clock::now_ns() + ms * 1_000_000;
         self.world.sleep_until(t);
     }
@@ -112,7 +165,7 @@ pub fn run_once(scn: &dyn Scenario, params: &Value, prefix: &[usize], sigs: &[u6
     let built = scn.build(params);
     let world = World::new(prefix.to_vec(), sigs.to_vec(), built.broker, built.cfg, labels);
     verif::install(Some(world.clone()));
-    let ctx = Ctx { world: world.clone() };
+    let ctx = Ctx { world: world.clone(), free: None };
     let root = built.root;
     ctx.spawn("main", move |c| root(c));
     let ok = world.run_to_completion(Duration::from_secs(30));
@@ -314,4 +367,75 @@ pub fn point_kind_name(k: &PointKind) -> &'static str {
         PointKind::Read => "read",
         PointKind::Write => "write",
     }
+}
+
+/// Loopback-TCP conformance: run the scenario's client program free-running (no controller,
+/// real blocking, real `mio::net::TcpStream`) against the same scripted broker served by a
+/// thread behind a loopback listener, and return (per-actor logs, bytes the broker read).
+pub fn run_free_tcp(scn: &dyn Scenario, params: &Value) -> Result<(BTreeMap<String, Vec<String>>, Vec<u8>), String> {
+    use std::io::{Read, Write};
+    verif::clock::set_virtual(false);
+    verif::install(None);
+    let built = scn.build(params);
+    let listener = std::net::TcpListener::bind("127.0.0.1:0").map_err(|e| e.to_string())?;
+    let addr = listener.local_addr().map_err(|e| e.to_string())?;
+    let mut broker = built.broker;
+    let server = std::thread::spawn(move || -> Vec<u8> {
+        let mut wire = Vec::new();
+        let (mut sock, _) = match listener.accept() {
+            Ok(x) => x,
+            Err(_) => return wire,
+        };
+        let _ = sock.set_nodelay(true);
+        let _ = sock.set_read_timeout(Some(Duration::from_secs(20)));
+        let mut buf = vec![0u8; 65536];
+        loop {
+            match sock.read(&mut buf) {
+                Ok(0) | Err(_) => break,
+                Ok(n) => {
+                    wire.extend_from_slice(&buf[..n]);
+                    let mut out = super::broker::BrokerOut::default();
+                    broker.on_client_bytes(&buf[..n], &mut out);
+                    if !out.bytes.is_empty() && sock.write_all(&out.bytes).is_err() {
+                        break;
+                    }
+                    if out.eof {
+                        let _ = sock.shutdown(std::net::Shutdown::Both);
+                        break;
+                    }
+                }
+            }
+        }
+        wire
+    });
+    let dummy = World::new(vec![], vec![], Box::new(super::broker::StdBroker::new(super::broker::Handshake::default())), EnvConfig::default(), false);
+    let free = Arc::new(FreeWorld { addr, logs: std::sync::Mutex::new(BTreeMap::new()), handles: std::sync::Mutex::new(Vec::new()) });
+    let ctx = Ctx { world: dummy, free: Some(free.clone()) };
+    let root = built.root;
+    let (done_tx, done_rx) = crossbeam_channel::bounded::<()>(1);
+    std::thread::spawn(move || {
+        root(ctx);
+        let _ = done_tx.send(());
+    });
+    if done_rx.recv_timeout(Duration::from_secs(30)).is_err() {
+        return Err("free-running session did not finish within 30 s".to_string());
+    }
+    let wire = server.join().map_err(|_| "broker thread panicked".to_string())?;
+    let logs = free.logs.lock().unwrap().clone();
+    Ok((logs, wire))
+}
+
+/// Per-channel projection of a client byte stream (insensitive to cross-channel order).
+pub fn per_channel(wire: &[u8]) -> BTreeMap<u16, Vec<(u8, Vec<u8>)>> {
+    let mut per: BTreeMap<u16, Vec<(u8, Vec<u8>)>> = BTreeMap::new();
+    if wire.len() > 8 {
+        let (envs, _, _) = split_envelopes(&wire[8..]);
+        for e in envs {
+            // heartbeats depend on real time: not part of the comparison
+            if e.ty != 8 {
+                per.entry(e.chan).or_default().push((e.ty, e.payload));
+            }
+        }
+    }
+    per
 }
